@@ -1,6 +1,6 @@
 (* C03 — each structure is a connected component of a superlevel set. *)
 From Coq Require Import ZArith List Bool Permutation.
-From Dendro Require Import Base Tree Criteria Compute ComputeInv ComputeThm.
+From Dendro Require Import Base Tree Grid GridLemmas Criteria Compute ComputeInv ComputeThm Concrete.
 Import ListNotations.
 Open Scope Z_scope.
 
@@ -41,3 +41,35 @@ Theorem C03_trunk_is_subset_of_roots :
               In t (run adj indep order) /\ ~ dropped indep t.
 Proof. exact trunk_In. Qed.
 Print Assumptions C03_trunk_is_subset_of_roots.
+
+(* the adjacency of the implementation (default and periodic, through the padding) is
+   symmetric in every dimension, for every axis length >= 1 *)
+Theorem C03_grid_adjacency_symmetric :
+  forall shape per p q, Forall (fun n => 0 < n) shape ->
+    In q (nbrs shape per p) -> In p (nbrs shape per q).
+Proof. exact nbrs_sym. Qed.
+Print Assumptions C03_grid_adjacency_symmetric.
+
+(* hence, with no hypothesis left, for the concrete computation on a grid: *)
+Theorem C03_compute_connected :
+  forall shape per vals minv cs, Forall (fun n => 0 < n) shape ->
+  forall u, In u (fnodes (compute shape (AdjGrid per) vals minv cs)) ->
+            connected (nbrs shape per) (region u).
+Proof. exact grid_connected. Qed.
+Print Assumptions C03_compute_connected.
+
+Theorem C03_compute_contour :
+  forall shape per vals minv cs, Forall (fun n => 0 < n) shape ->
+  forall u x q vq y vy,
+    In u (fnodes (compute shape (AdjGrid per) vals minv cs)) -> In x (region u) ->
+    In (q, vq) (kept vals minv) -> In q (nbrs shape per x) -> ~ In q (region u) ->
+    In (y, vy) (regionv u) -> vq <= vy.
+Proof. exact grid_contour. Qed.
+Print Assumptions C03_compute_contour.
+
+(* non-vacuity: a 2-D periodic example with a branch *)
+Example C03_example :
+  map (fun t => (tid t, region t))
+      (fnodes (compute [2; 4] (AdjGrid [false; true]) [Some 5; Some 1; Some 4; Some 0; Some 0; Some 0; Some 0; Some 0] (Some 0) [MinDelta 0; MinNpix 0 1]))
+  = [(1, [1; 0; 2]); (0, [0]); (2, [2])].
+Proof. vm_compute. reflexivity. Qed.
